@@ -12,7 +12,9 @@ RULE = ("(a) document engine: a registry of 78 codec entry points (message, pres
         "k=1 mutation closure of D1 is enumerated: every attribute and leaf text is probed with 'zzz' -- sites that keep it are free-text "
         "sites and are driven through the text alphabet {markup that would inject an element, all five metacharacters, 2/3/4-byte UTF-8, "
         "inner double space, ']]>', 4096 chars} with a preservation oracle and a no-injection oracle (element skeleton unchanged); every "
-        "child at depth 1-2 is deleted and duplicated (thorough: also every pair of siblings deleted) and the unrelated siblings must survive. "
+        "child at depth 1-2 is deleted and duplicated (thorough: also every pair of siblings deleted) and the unrelated siblings must survive; "
+        "a child of a corpus document that is lost in the round trip but survives once one sibling of another kind is removed was dropped "
+        "because of that sibling (combinations of present/absent fields that occur in real documents). "
         "(b) object engine: integer fields over their whole range: parseInt<T> for all 8- and 16-bit values and 32/64-bit bounds incl. "
         "rejection just outside; a table of 40 integer-typed public fields (Jingle payload type / candidate / crypto / feedback / header "
         "extension / description, presence priority, result set, IBB, HTTP upload size, RPC fault code, stanza error code and max file "
@@ -27,7 +29,7 @@ ASSUME = ["only sites the codec demonstrably stores as free text are driven thro
 def run(tier):
     os.environ["VERIF_CORPUS"] = os.path.join(C.VERIF, "corpus", "seeds.jsonl")
     return enum_check(PROP, HARNESS, tier, "exploration", RULE, ASSUME, args=["--opt", "engine=c01", "--opt", "corpus=" + os.environ["VERIF_CORPUS"]],
-                      witness=["admitted_pairs", "free_text_sites", "child_deletions", "child_duplications", "typed_field_checks", "integer_fields"])
+                      witness=["admitted_pairs", "free_text_sites", "child_deletions", "child_duplications", "typed_field_checks", "integer_fields", "cooccurrence_probes"])
 
 
 def replay(path):
